@@ -224,7 +224,8 @@ def run(check):
     n = check.pick(60, 600)
     check.rule = ("generated input schemas (strings with length bounds, integers with ranges, floats, bools, string enums, lists, string-keyed maps, nested inline objects, "
                   "references to shared objects, optional fields with and without defaults) x one valid document x every single-point invalidation (missing required, "
-                  "wrong type per type, out of range, wrong enum member, unknown field at every nesting level); each document is run through Execute (Go values) and "
+                  "wrong type per type, out of range, wrong enum member, unknown field at every nesting level, explicit null for present and omitted fields, documents "
+                  "that are not objects); each document is run through Execute (Go values) and "
                   "through engine.Workflow.Run (YAML bytes); oracles: invalid => error and no deployment for execution (deploy counter), valid => the whole input seen by "
                   "two different steps and the workflow output equal the reference normalisation (typed values, defaults filled) and equal each other; "
                   "distinct = (schema, invalidation kind, entry point)")
